@@ -452,6 +452,52 @@ func cmdRun(args []string) int {
 			}
 			o := outs[ci]
 			rr := results[ref.res]
+			// assertions labelled "<property>.native.<...>" are decided by the native run alone (the engine cannot
+			// load what they need and records them as passed): a failure there is a violation of the real code
+			nativeFail := ""
+			var nmodel map[string]uint64
+			if ref.viol >= 0 {
+				nmodel = rr.r.Violations[ref.viol].Model
+			} else {
+				nmodel = rr.r.Witnesses[ref.wit].Model
+				}
+			for _, e := range o.Events {
+				if strings.HasPrefix(e, "FAIL:") && strings.Contains(e, ".native.") {
+					nativeFail = strings.TrimPrefix(e, "FAIL:")
+				}
+			}
+			if nativeFail != "" {
+				knownID := ""
+				for _, e := range o.Events {
+					if strings.HasPrefix(e, "known:") && strings.HasSuffix(e, ":"+nativeFail) {
+						knownID = strings.TrimSuffix(strings.TrimPrefix(e, "known:"), ":"+nativeFail)
+					}
+				}
+				if kf, ok := known[knownID]; ok && knownID != "" && kf.Status == "known" {
+					confirmedViol[ref.res]++
+					if !knownPrinted[knownID] {
+						knownPrinted[knownID] = true
+						fmt.Printf("KNOWN-FINDING: property=%s %s [%s] witness=%s\n", kf.Property, kf.What, kf.ID, modelString(nmodel))
+					}
+					continue
+				}
+				confirmedViol[ref.res]++
+				totalViol++
+				nReplayFile++
+				rp := filepath.Join(*verif, "out", "replay", fmt.Sprintf("%s-%s-%d.json", *prop, rr.name, nReplayFile))
+				os.MkdirAll(filepath.Dir(rp), 0o755)
+				rb, _ := json.MarshalIndent(map[string]any{"property": *prop, "package": h.ImportPath, "harness": rr.name, "label": nativeFail, "kind": "assert",
+					"msg": "decided by the native run", "model": nmodel, "module": modulePath, "harness_root": *harnessRoot, "native_status": o.Status, "native_msg": o.Msg, "native_events": o.Events}, "", " ")
+				os.WriteFile(rp, rb, 0o644)
+				fmt.Printf("VIOLATION property=%s replay=%s\n", *prop, rp)
+				fmt.Printf("  harness=%s label=%s kind=assert (native verdict) %s model=%s\n", rr.name, nativeFail, lastRec(o.Events), modelString(nmodel))
+				exit = max(exit, 1)
+				confirmedViolation = true
+				if len(samples) < 12 {
+					samples = append(samples, map[string]any{"harness": rr.name, "violation": nativeFail, "model": nmodel})
+				}
+				continue
+			}
 			if ref.viol >= 0 {
 				v := rr.r.Violations[ref.viol]
 				reproduced := false
@@ -502,32 +548,6 @@ func cmdRun(args []string) int {
 			}
 			w := rr.r.Witnesses[ref.wit]
 			replayed[ref.res]++
-			// assertions labelled "<property>.native.<...>" are decided by the native run alone (the engine cannot
-			// load what they need and records them as passed): a failure there is a violation of the real code
-			nativeFail := ""
-			for _, e := range o.Events {
-				if strings.HasPrefix(e, "FAIL:") && strings.Contains(e, ".native.") {
-					nativeFail = strings.TrimPrefix(e, "FAIL:")
-				}
-			}
-			if nativeFail != "" {
-				confirmedViol[ref.res]++
-				totalViol++
-				nReplayFile++
-				rp := filepath.Join(*verif, "out", "replay", fmt.Sprintf("%s-%s-%d.json", *prop, rr.name, nReplayFile))
-				os.MkdirAll(filepath.Dir(rp), 0o755)
-				rb, _ := json.MarshalIndent(map[string]any{"property": *prop, "package": h.ImportPath, "harness": rr.name, "label": nativeFail, "kind": "assert",
-					"msg": "decided by the native run", "model": w.Model, "module": modulePath, "harness_root": *harnessRoot, "native_status": o.Status, "native_msg": o.Msg, "native_events": o.Events}, "", " ")
-				os.WriteFile(rp, rb, 0o644)
-				fmt.Printf("VIOLATION property=%s replay=%s\n", *prop, rp)
-				fmt.Printf("  harness=%s label=%s kind=assert (native verdict) %s model=%s\n", rr.name, nativeFail, lastRec(o.Events), modelString(w.Model))
-				exit = max(exit, 1)
-				confirmedViolation = true
-				if len(samples) < 12 {
-					samples = append(samples, map[string]any{"harness": rr.name, "violation": nativeFail, "model": w.Model})
-				}
-				continue
-			}
 			if !sameOutcome(w, o) {
 				mismatch[ref.res]++
 				if mismatch[ref.res] <= 3 {
